@@ -56,6 +56,11 @@ LITERAL_PAIRS = [   # witnesses of known findings and documented tolerances: alw
     (LIT_HEAD + "~Parameter\nRUN . %s : Run number: main pass\n" % v + LIT_TAIL, LIT_HEAD + "~Parameter\nRUN . %s: Run number: main pass\n" % v + LIT_TAIL, ["pad_fields"])
     for v in ("15", "07", "24", "29", "35", "99")
 ] + [
+    # the same with a value that could be an hour (00-03, 10-13, 20-23): known finding
+    (LIT_HEAD + "~Parameter\nRUN . %s : Run number: main pass\n" % v + LIT_TAIL, LIT_HEAD + "~Parameter\nRUN . %s: Run number: main pass\n" % v + LIT_TAIL, ["pad_fields"],
+     "param-hour-like-value-colon-spacing")
+    for v in ("12", "03", "21")
+] + [
     (LIT_HEAD + "~Parameter\nRUN .\t%s : Run number: main pass\n" % v + LIT_TAIL, LIT_HEAD + "~Parameter\nRUN . %s : Run number: main pass\n" % v + LIT_TAIL, ["pad_fields"])
     for v in ("15", "12", "07", "24")
 ]
@@ -232,7 +237,8 @@ def run_case(case, ctx):
     ts = list(case["ts"])
     excl_dlm = False
     if case["base"] == "literal":
-        base, text, applied = LITERAL_PAIRS[case["literal"]]
+        base, text, applied = LITERAL_PAIRS[case["literal"]][:3]
+        literal_label = (LITERAL_PAIRS[case["literal"]] + (None,))[3]
         applied = list(applied)
         kind = "generated"
     elif case["base"] == "gen":
@@ -358,6 +364,8 @@ def run_case(case, ctx):
                 key = "result-changed:param-unit-colon-with-time-like-separator"
             if "redelimit" in applied and text_cells_differ_only_by_padding(b, t, diffs):
                 key = "result-changed:text-cell-keeps-delimiter-padding"
+            if case["base"] == "literal" and literal_label:
+                key = "result-changed:" + literal_label
             ctx.violation(key, "engine=%s: %s" % (engine, diffs[:4]), detail)
     for tname in applied:
         ctx.count("t_" + tname)
